@@ -3,6 +3,8 @@
 package wallet
 
 import (
+	"errors"
+
 	"github.com/btcsuite/btcd/btcutil"
 	"github.com/btcsuite/btcd/btcutil/hdkeychain"
 	"github.com/btcsuite/btcd/chaincfg/chainhash"
@@ -38,6 +40,9 @@ type zzRecWorld struct {
 	pays    []*zzPay
 	txs     []*wire.MsgTx
 	tag     byte
+	nested  bool // payments go to the BIP0049Plus scope instead of BIP0084
+	failOnce bool // inject one backend failure
+	failed  bool // a backend failure was injected into this recovery
 }
 
 // addrAt: m/84'/0'/0'/branch/index as a P2WPKH address, derived from the seed
@@ -45,7 +50,11 @@ type zzRecWorld struct {
 func (w *zzRecWorld) addrAt(branch, index uint32) btcutil.Address {
 	k := w.root
 	h := uint32(hdkeychain.HardenedKeyStart)
-	for _, step := range []uint32{84 + h, 0 + h, 0 + h, branch, index} {
+	purpose := uint32(84)
+	if w.nested {
+		purpose = 49
+	}
+	for _, step := range []uint32{purpose + h, 0 + h, 0 + h, branch, index} {
 		c, err := k.DeriveNonStandard(step) // nolint:staticcheck
 		zzW(err)
 		k = c
@@ -54,6 +63,14 @@ func (w *zzRecWorld) addrAt(branch, index uint32) btcutil.Address {
 	zzW(err)
 	a, err := btcutil.NewAddressWitnessPubKeyHash(btcutil.Hash160(pub.SerializeCompressed()), w.params)
 	zzW(err)
+	if w.nested && branch == waddrmgr.ExternalBranch {
+		// BIP0049Plus: nested witness outside, native witness for change
+		prog, err := txscript.PayToAddrScript(a)
+		zzW(err)
+		sh, err := btcutil.NewAddressScriptHash(prog, w.params)
+		zzW(err)
+		return sh
+	}
 	return a
 }
 
@@ -174,6 +191,16 @@ func zzBareTx(tag byte) *wire.MsgTx {
 func (w *zzRecWorld) recover(label string) {
 	bb := w.chain.meta(w.chain.blocks[0])
 	birthday := &waddrmgr.BlockStamp{Height: bb.Height, Hash: bb.Hash, Timestamp: bb.Time}
+	if w.failOnce && !w.failed {
+		// the backend fails the first filter request of this recovery once;
+		// the recovery reports the error and is retried in the same process
+		w.failed = true
+		w.chain.filterErr = errors.New("backend: filter request failed")
+		err := w.w.recovery(w.chain, birthday)
+		verifrt.Assert(err != nil, label+"-backend-failure-reported")
+		w.chain.filterErr = nil
+		verifrt.Reach("retried-after-backend-failure")
+	}
 	err := w.w.recovery(w.chain, birthday)
 	verifrt.Assert(err == nil, label+"-recovery-succeeds")
 }
@@ -186,7 +213,11 @@ func (w *zzRecWorld) check(label string) {
 	zzW(walletdb.View(w.db, func(tx walletdb.ReadTx) error {
 		ans := tx.ReadBucket(waddrmgrNamespaceKey)
 		tns := tx.ReadBucket(wtxmgrNamespaceKey)
-		sm, err := w.w.Manager.FetchScopedKeyManager(waddrmgr.KeyScopeBIP0084)
+		scope := waddrmgr.KeyScopeBIP0084
+		if w.nested {
+			scope = waddrmgr.KeyScopeBIP0049Plus
+		}
+		sm, err := w.w.Manager.FetchScopedKeyManager(scope)
 		zzW(err)
 		var want int64
 		for _, p := range w.pays {
@@ -221,12 +252,14 @@ func (w *zzRecWorld) check(label string) {
 // zzC16Recovery: nBlocks chosen blocks; after each of the first nBlocks-1
 // the recovery may be run (a first session) before the chain grows further,
 // so that the final run resumes (Resurrect) from what was persisted.
-func zzC16Recovery(W uint32, nBlocks int) {
+func zzC16Recovery(W uint32, nBlocks int) { zzC16RecoveryOpt(W, nBlocks, false, false) }
+
+func zzC16RecoveryOpt(W uint32, nBlocks int, nested, failOnce bool) {
 	ww := zzNewWalletWorld(200, 1)
 	ww.w.recoveryWindow = W
 	root, err := hdkeychain.NewMaster(zzWSeed, ww.params)
 	zzW(err)
-	w := &zzRecWorld{zzWalletWorld: ww, root: root, W: W, highest: [2]int64{-1, -1}}
+	w := &zzRecWorld{zzWalletWorld: ww, root: root, W: W, highest: [2]int64{-1, -1}, nested: nested, failOnce: failOnce}
 	zzW(walletdb.View(w.db, func(tx walletdb.ReadTx) error {
 		return w.w.Manager.Unlock(tx.ReadBucket(waddrmgrNamespaceKey), zzWPriv)
 	}))
@@ -244,7 +277,58 @@ func zzC16Recovery(W uint32, nBlocks int) {
 }
 
 func ZzC16RecoveryW2B2() { zzC16Recovery(2, 2) }
+
+// payments to the BIP0049Plus scope (nested witness outside, native witness
+// change: the one default scope whose two branches use different formats)
+func ZzC16RecoveryNestedW2B2() { zzC16RecoveryOpt(2, 2, true, false) }
+
+// the backend fails one filter request; the recovery is retried in-process
+func ZzC16RecoveryFailW2B2() { zzC16RecoveryOpt(2, 2, false, true) }
 func ZzC16RecoveryW2B3() { zzC16Recovery(2, 3) }
 func ZzC16RecoveryW3B3() { zzC16Recovery(3, 3) }
 
 var _ = chainhash.Hash{}
+
+// ZzC16BatchBoundary: the recovery scans in batches of recoveryBatchSize
+// (2000) blocks. A chain of 2005 blocks after the birthday, empty except for
+// one payment placed around the end of the first batch (its last block, the
+// one before, or the first block of the second batch) and a later sweep of
+// that output which returns nothing to the wallet: found, recorded, spent.
+func ZzC16BatchBoundary() {
+	ww := zzNewWalletWorld(200, 1)
+	ww.chain.concreteTs = true
+	ww.w.recoveryWindow = 2
+	root, err := hdkeychain.NewMaster(zzWSeed, ww.params)
+	zzW(err)
+	w := &zzRecWorld{zzWalletWorld: ww, root: root, W: 2, highest: [2]int64{-1, -1}}
+	zzW(walletdb.View(w.db, func(tx walletdb.ReadTx) error {
+		return w.w.Manager.Unlock(tx.ReadBucket(waddrmgrNamespaceKey), zzWPriv)
+	}))
+	c := w.chain
+	payAt := int32(recoveryBatchSize - 1 + verifrt.Choice(3, "payment-block")) // 1999, 2000 or 2001 blocks after the birthday
+	sweepAt := int32(recoveryBatchSize + 3)
+	for i := int32(1); i <= recoveryBatchSize+5; i++ {
+		c.blocks = append(c.blocks, zzBlk{height: c.base + i})
+	}
+	tx := zzBareTx(1)
+	addr := w.addrAt(waddrmgr.ExternalBranch, 1)
+	script, err := txscript.PayToAddrScript(addr)
+	zzW(err)
+	tx.AddTxOut(wire.NewTxOut(250000, script))
+	p := &zzPay{branch: waddrmgr.ExternalBranch, index: 1, amount: 250000, tx: tx, out: 0, spent: true}
+	w.pays = append(w.pays, p)
+	w.highest[0] = 1
+	c.txsAt[c.base+payAt] = []*wire.MsgTx{tx}
+	sweep := wire.NewMsgTx(2)
+	sweep.LockTime = 99
+	sweep.AddTxIn(wire.NewTxIn(&wire.OutPoint{Hash: tx.TxHash(), Index: 0}, nil, nil))
+	sweep.AddTxOut(wire.NewTxOut(249000, []byte{0x00, 0x14, 1, 2, 3, 4, 5, 6, 7, 8, 9, 10, 11, 12, 13, 14, 15, 16, 17, 18, 19, 20}))
+	c.txsAt[c.base+sweepAt] = []*wire.MsgTx{sweep}
+	w.txs = []*wire.MsgTx{tx, sweep}
+	if payAt == recoveryBatchSize {
+		verifrt.Reach("payment-in-the-last-block-of-a-batch")
+	}
+	w.recover("c16-batch")
+	w.check("c16-batch")
+	verifrt.Reach("c16-end")
+}
